@@ -206,6 +206,12 @@ def broad_cases(draw, max_len=12, allow_nullable=True):
             a = int(L[0][0], 16)  # a second section / archive member restarting at the same address
         rec[0] = format(a, "x")
         a += draw(st.integers(1, 7))
+    if draw(st.integers(0, 5)) == 0:
+        # address columns zero padded to a fixed width, as in raw-binary / object dumps (`00:`, `04:`)
+        w_ = draw(st.sampled_from([2, 4, 8, 16]))
+        for rec in L:
+            rec[0] = rec[0].zfill(w_)
+        feats.add("addresses-zero-padded")
     # duplicate the whole listing sometimes so that there are several occurrences
     if draw(st.integers(0, 3)) == 0 and len(L) <= 8:
         base = a
